@@ -30,7 +30,7 @@ PROPS = {
              assumptions=BASE_ASSUME + ["signature verification and authz dispatch are modelled"]),
  "C04": dict(jobs=[CORPUS, ante(40, 600)], rule=NONTRIVIAL + "; transactions are signed and delivered through the real DeliverTx",
              assumptions=BASE_ASSUME + ["governance execution is outside the statement; no other message-executing module is wired into the app (extractor checks the module list)"]),
- "C05": dict(jobs=[CORPUS, chain("oracle", 50, 800), chain("mixed", 10, 200), chain("oracle", 15, 300, cr=0)], rule=NONTRIVIAL, assumptions=BASE_ASSUME),
+ "C05": dict(jobs=[CORPUS, chain("oracle", 50, 800), chain("mixed", 10, 200), chain("settle", 15, 300), chain("oracle", 15, 300, cr=0)], rule=NONTRIVIAL, assumptions=BASE_ASSUME),
  "C06": dict(jobs=[CORPUS, chain("malformed", 40, 600), chain("mixed", 15, 300), chain("fault", 15, 300), ante(10, 150), pure(1500, 30000)], rule=NONTRIVIAL,
              assumptions=BASE_ASSUME + ["panics inside dependencies on inputs satisfying their documented preconditions are outside the model"]),
  "C07": dict(jobs=[CORPUS, chain("settle", 30, 400, twin=True), chain("oracle", 25, 400, twin=True), ante(6, 100, twin=True)],
